@@ -66,6 +66,7 @@ type ChainOpts struct {
 	GenesisHook   func(gs map[string]json.RawMessage, c *Chain)
 	HomeDir       string
 	IAVLCache     int
+	Signed        bool // messages of known accounts travel as really signed transactions through the installed ante handler
 }
 
 type Chain struct {
@@ -304,8 +305,49 @@ func (c *Chain) Block(dt time.Duration) (PhaseResult, PhaseResult) {
 // Exec runs one message through ValidateBasic and the production message router inside a cache
 // context that is written back only on success (baseapp's per-tx atomicity). Panics are recovered
 // (baseapp's runTx does the same) and reported.
+// signerOf returns the account whose signature the message needs (as the codec derives it from the message's signer
+// annotation), if it is a single account whose key the harness holds.
+func (c *Chain) signerOf(msg sdk.Msg) *Actor {
+	signers, _, err := c.App.AppCodec().GetMsgV1Signers(msg)
+	if err != nil || len(signers) != 1 {
+		return nil
+	}
+	for _, a := range c.Actors {
+		if string(a.Addr.Bytes()) == string(signers[0]) {
+			return a
+		}
+	}
+	for _, v := range c.Vals {
+		if string(v.Oper.Addr.Bytes()) == string(signers[0]) {
+			a := v.Oper
+			return &a
+		}
+	}
+	return nil
+}
+
 func (c *Chain) Exec(msg sdk.Msg) (resp *sdk.Result, res PhaseResult) {
 	res = guard(func() error {
+		if c.Opts.Signed {
+			// signed mode: the message as a transaction signed by the account its signer annotation names, through the
+			// ante handler the production app has installed (signature and sequence checks, the stake-change guard, ...);
+			// as in baseapp, what the ante handler writes stays even when the message fails afterwards
+			if a := c.signerOf(msg); a != nil {
+				tx, err := c.SignedTx(a, 1_000_000_000, msg)
+				if err != nil {
+					return err
+				}
+				bz, err := c.App.TxConfig().TxEncoder()(tx)
+				if err != nil {
+					return err
+				}
+				actx, awrite := c.Ctx.CacheContext()
+				if _, err := c.App.AnteHandler()(actx.WithTxBytes(bz), tx, false); err != nil {
+					return err
+				}
+				awrite()
+			}
+		}
 		if vb, ok := msg.(sdk.HasValidateBasic); ok {
 			if err := vb.ValidateBasic(); err != nil {
 				return err
